@@ -251,7 +251,7 @@ pub fn preset_graph(rng : &mut Rng, shape : &str) -> Graph
         "twins" =>
         {
             // independent rules copying leaves verbatim: equal leaves give byte-identical targets
-            let count = rng.range(2, 3);
+            let count = rng.range(2, 4);
             let n = names(rng, count + 1);
             let l = leafs(rng, count);
             let mut rules = vec![];
